@@ -13,6 +13,7 @@ THM_MODULES = ["Minicbor.Thm.C01"]
 P = "Minicbor.C01."
 REQUIRED = [P + n for n in "roundtrip roundtrip_exact roundtrip_position roundtrip_list optopt_lossy optopt_lossy_general".split()]
 PACKAGES = ["hcore"]
+DEBUG_TWINS = True
 RULE = ("for every concrete instantiation printed by `hcore tlist` (every built-in Encode/Decode impl at least once, nested "
         "combinations): boundary values (all 2^k±3 and width edges 23/24, 255/256, 65535/65536, 2^32-1/2^32, 2^63, 2^64-1 with their "
         "negative images; empty and 1/23/24/255/256-element containers; strings at the length-width edges incl. multi-byte UTF-8; "
